@@ -402,4 +402,258 @@ Proof.
     now apply mult_of_ext.
 Qed.
 
+(* ---- what a stage leaves alone: the rows, multipliers and exchange indices of earlier stages ---- *)
+Lemma dec_step_frame n mm m1 k (au al : matrix) (index : list nat) (d : T) l
+      (au' al' : matrix) (index' : list nat) (d' : T) l' :
+  cols au = mm -> cols al = m1 -> 1 <= mm -> lnext n l <= k + 1 + m1 ->
+  dec_step false n mm k (au, al, index, d, l) = Ok (au', al', index', d', l') ->
+  cols au' = mm /\ cols al' = m1 /\ l' = lnext n l /\
+  (forall i s, i < k -> s < mm -> mat_at au' mm i s = mat_at au mm i s) /\
+  (forall i t, i < k -> t < m1 -> mat_at al' m1 i t = mat_at al m1 i t) /\
+  (forall i, i < k -> nth i index' 0 = nth i index 0).
+Proof.
+  intros Hc Hcl Hmm Hl H. unfold dec_step in H. fold (lnext n l) in H.
+  apply bind_ok in H as ([dum p] & Ep & H). apply (find_pivot_Ok_inv _ mm) in Ep as (Hp & Hdum); auto.
+  apply bind_ok in H as (index1 & Ei & H). apply upd_Ok_inv in Ei as (Hki & ->).
+  apply bind_ok in H as (au1 & E1 & H).
+  apply bind_ok in H as ([au2 d2] & E2 & H).
+  apply bind_ok in H as ([au3 al3] & E3 & H). injection H as <- <- <- <- <-.
+  assert (H1 : cols au1 = mm /\ forall i s, i < k -> s < mm -> mat_at au1 mm i s = mat_at au mm i s).
+  { destruct (eqb dum zero); [|injection E1 as <-; auto].
+    apply (mset_Ok_inv _ _ mm) in E1 as (Hc1 & _ & H1); auto; try lia.
+    split; auto. intros i s Hi Hs. rewrite H1 by auto.
+    destruct (Nat.eqb_spec i k); [lia|reflexivity]. }
+  destruct H1 as (Hc1 & H1).
+  assert (H2 : cols au2 = mm /\ forall i s, i < k -> s < mm -> mat_at au2 mm i s = mat_at au1 mm i s).
+  { destruct (Nat.eqb_spec p k) as [->|Hpk]; cbn [negb] in E2.
+    - injection E2 as <- <-. auto.
+    - apply bind_ok in E2 as (au2' & Esw & E2). injection E2 as <- <-.
+      apply (swap_band_rows_Ok_inv _ _ mm) in Esw as (Hc2 & Hsw); auto.
+      split; auto. intros i s Hi Hs. rewrite Hsw by auto.
+      destruct (Nat.eqb_spec i k); [lia|]. destruct (Nat.eqb_spec i p); [lia|reflexivity]. }
+  destruct H2 as (Hc2 & H2).
+  apply (elim_loop_Ok_inv _ _ _ _ mm m1) in E3 as (Hc3 & Hcl3 & H3 & Hal3); auto.
+  repeat split; auto.
+  - intros i s Hi Hs. rewrite H3 by auto.
+    replace (k <? i) with false by (symmetry; apply Nat.ltb_ge; lia). cbn [andb].
+    rewrite H2, H1 by auto. reflexivity.
+  - intros i t Hi Ht. rewrite Hal3 by auto.
+    destruct (Nat.eqb_spec i k); [lia|reflexivity].
+  - intros i Hi. rewrite nth_upd_list by auto. destruct (Nat.eqb_spec i k); [lia|reflexivity].
+Qed.
+
+(* the remaining stages k0 .. k0+rem-1 leave everything below k0 alone *)
+Lemma dec_loop_frame n mm m1 rem k0 (s0 sN : dec_state) :
+  cols (fst (fst (fst (fst s0)))) = mm -> cols (snd (fst (fst (fst s0)))) = m1 -> 1 <= mm ->
+  snd s0 = Nat.min (k0 + m1) n -> m1 <= n ->
+  for_from rem k0 (dec_step false n mm) s0 = Ok sN ->
+  let '(au, al, index, _, _) := s0 in
+  let '(auN, alN, indexN, _, lN) := sN in
+  cols auN = mm /\ cols alN = m1 /\ lN = Nat.min (k0 + rem + m1) n /\
+  (forall i s, i < k0 -> s < mm -> mat_at auN mm i s = mat_at au mm i s) /\
+  (forall i t, i < k0 -> t < m1 -> mat_at alN m1 i t = mat_at al m1 i t) /\
+  (forall i, i < k0 -> nth i indexN 0 = nth i index 0).
+Proof.
+  intros Hc Hcl Hmm Hl Hm1 H.
+  pose (P := fun j (st : dec_state) =>
+    let '(a, b, ix, _, l) := st in
+    let '(au, al, index, _, _) := s0 in
+    cols a = mm /\ cols b = m1 /\ l = Nat.min (j + m1) n /\
+    (forall i s, i < k0 -> s < mm -> mat_at a mm i s = mat_at au mm i s) /\
+    (forall i t, i < k0 -> t < m1 -> mat_at b m1 i t = mat_at al m1 i t) /\
+    (forall i, i < k0 -> nth i ix 0 = nth i index 0)).
+  assert (HP : P (k0 + rem) sN).
+  { apply (for_from_inv_partial P rem k0 (dec_step false n mm) s0 sN); auto.
+    - destruct s0 as [[[[au al] index] d] l]. cbn in *. repeat split; auto.
+    - intros j [[[[a b] ix] dd] l] [[[[a1 b1] ix1] dd1] l1] Hj HPj E.
+      destruct s0 as [[[[au al] index] d0] l0]. unfold P in HPj |- *. cbn beta iota in HPj |- *.
+      destruct HPj as (Hca & Hcb & Hlj & Ha & Hb & Hix).
+      apply (dec_step_frame n mm m1) in E as (Hc1 & Hcb1 & Hl1 & Ha1 & Hb1 & Hix1); auto.
+      2:{ rewrite Hlj. unfold lnext. destruct (Nat.ltb_spec (Nat.min (j + m1) n) n); lia. }
+      repeat split; auto.
+      + rewrite Hl1, Hlj. unfold lnext. destruct (Nat.ltb_spec (Nat.min (j + m1) n) n); lia.
+      + intros i s Hi Hs. rewrite Ha1 by (auto; lia). now apply Ha.
+      + intros i t Hi Ht. rewrite Hb1 by (auto; lia). now apply Hb.
+      + intros i Hi. rewrite Hix1 by lia. now apply Hix. }
+  destruct s0 as [[[[au al] index] d0] l0]. destruct sN as [[[[auN alN] indexN] dN] lN].
+  exact HP.
+Qed.
+
+(* ---- one stage of the forward substitution on the right-hand side ---- *)
+Lemma fwd_step_Ok_inv n m1 k (al : matrix) (index : list nat) (y y' : list T) l l' p :
+  cols al = m1 -> nth k index 0 = p + 1 -> lnext n l <= k + 1 + m1 ->
+  fwd_step n al index k (y, l) = Ok (y', l') ->
+  l' = lnext n l /\ length y' = length y /\
+  forall i, nth i y' zero =
+    if (k <? i) && (i <? l')
+    then sub (nth (swp k p i) y zero) (mul (mat_at al m1 k (i - k - 1)) (nth (swp k p k) y zero))
+    else nth (swp k p i) y zero.
+Proof.
+  intros Hcl Hix Hl H. unfold fwd_step in H. fold (lnext n l) in H.
+  apply bind_ok in H as (ik & Eik & H). apply (rd_Ok_inv _ _ _ 0) in Eik as (_ & ->). rewrite Hix in H.
+  apply bind_ok in H as (j & Ej & H). unfold usub in Ej.
+  destruct (1 <=? p + 1); [|discriminate]. injection Ej as <-. replace (p + 1 - 1) with p in H by lia.
+  apply bind_ok in H as (z & Ez & H).
+  apply bind_ok in H as (y1 & Eloop & H). injection H as <- <-.
+  assert (Hz : length z = length y /\ forall i, nth i z zero = nth (swp k p i) y zero).
+  { destruct (Nat.eqb_spec p k) as [->|Hpk]; cbn [negb] in Ez.
+    - injection Ez as <-. split; auto. intros i. unfold swp. destruct (Nat.eqb_spec i k) as [->|]; auto.
+    - unfold vswap in Ez.
+      apply bind_ok in Ez as (a & Ea & Ez). apply (rd_Ok_inv _ _ _ zero) in Ea as (Hka & ->).
+      apply bind_ok in Ez as (b & Eb & Ez). apply (rd_Ok_inv _ _ _ zero) in Eb as (Hpb & ->).
+      apply bind_ok in Ez as (v1 & E1 & Ez). apply upd_Ok_inv in E1 as (_ & ->).
+      apply upd_Ok_inv in Ez as (Hp1 & ->).
+      split; [now rewrite !upd_list_length|].
+      intros i. rewrite nth_upd_list by auto. rewrite nth_upd_list by auto. unfold swp.
+      destruct (Nat.eqb_spec i p) as [->|].
+      + destruct (Nat.eqb_spec p k); [congruence|reflexivity].
+      + destruct (Nat.eqb_spec i k); reflexivity. }
+  destruct Hz as (Hzl & Hz).
+  split; [reflexivity|].
+  destruct (Nat.le_gt_cases (k + 1) (lnext n l)) as [Hkl|Hkl].
+  2:{ rewrite for_empty in Eloop by lia. injection Eloop as <-. split; auto. intros i. rewrite Hz.
+      replace ((k <? i) && (i <? lnext n l)) with false; auto.
+      symmetry. apply andb_false_iff. destruct (Nat.ltb_spec k i); destruct (Nat.ltb_spec i (lnext n l)); auto; lia. }
+  refine (for_inv_partial (fun j (x : list T) => length x = length y /\ forall i, nth i x zero =
+            if (k <? i) && (i <? j)
+            then sub (nth (swp k p i) y zero) (mul (mat_at al m1 k (i - k - 1)) (nth (swp k p k) y zero))
+            else nth (swp k p i) y zero) (k + 1) (lnext n l) _ z y1 Hkl _ _ Eloop).
+  - split; auto. intros i. rewrite Hz.
+    replace ((k <? i) && (i <? k + 1)) with false; auto.
+    symmetry. apply andb_false_iff. destruct (Nat.ltb_spec k i); destruct (Nat.ltb_spec i (k + 1)); auto; lia.
+  - intros j x x1 Hj (Hxl & Hx) E.
+    apply bind_ok in E as (xk & Exk & E). apply (rd_Ok_inv _ _ _ zero) in Exk as (_ & ->).
+    apply bind_ok in E as (a & Ea & E). apply (mget_Ok_inv _ m1) in Ea as (-> & _); auto.
+    apply bind_ok in E as (xj & Exj & E). apply (rd_Ok_inv _ _ _ zero) in Exj as (Hjx & ->).
+    apply upd_Ok_inv in E as (_ & ->). split; [now rewrite upd_list_length|].
+    intros i. rewrite nth_upd_list by auto.
+    destruct (Nat.eqb_spec i j) as [->|Hne].
+    + replace ((k <? j) && (j <? S j)) with true
+        by (symmetry; apply andb_true_iff; split; apply Nat.ltb_lt; lia).
+      rewrite !Hx. rewrite (Nat.ltb_irrefl j), (Nat.ltb_irrefl k). cbn [andb]. rewrite andb_false_r. reflexivity.
+    + rewrite Hx.
+      destruct (Nat.ltb_spec k i); destruct (Nat.ltb_spec i j); destruct (Nat.ltb_spec i (S j)); cbn [andb]; auto; lia.
+Qed.
+
+(* ---- the algebra of one stage ---- *)
+
+Definition c_of (m1 k i : nat) : nat := if i <? k then i else if i <? k + m1 then k else i - m1.
+
+Definition rowf (a : nat -> T) (mm c : nat) (x : list T) : T :=
+  sum_n mm (fun s => mul (a s) (nth (c + s) x zero)).
+
+Lemma rowval_rowf (au : matrix) mm i c x : rowval au mm i c x = rowf (mat_at au mm i) mm c x.
+Proof. reflexivity. Qed.
+
+Lemma rowf_ext (a b : nat -> T) mm c x : (forall s, s < mm -> a s = b s) -> rowf a mm c x = rowf b mm c x.
+Proof. intros H. unfold rowf. apply sum_n_ext. intros s Hs. now rewrite H. Qed.
+
+Lemma sum_n_lin m (c : T) (f g : nat -> T) :
+  sum_n m (fun u => sub (f u) (mul c (g u))) = sub (sum_n m f) (mul c (sum_n m g)).
+Proof. induction m as [|m IH]; cbn; [ring|]. rewrite IH. ring. Qed.
+
+Lemma neq_eqb_false (x y : T) : x <> y -> eqb x y = false.
+Proof. intros H. destruct (eqb x y) eqn:E; auto. apply (fl_eqb A FL) in E. congruence. Qed.
+
+Lemma rowf_elim (a2 : nat -> nat -> T) mm k i x :
+  1 <= mm -> a2 k 0 <> zero ->
+  rowf (elim_f a2 mm k i) mm (k + 1) x =
+  sub (rowf (a2 i) mm k x) (mul (mult_f a2 k i) (rowf (a2 k) mm k x)).
+Proof.
+  intros Hmm Hk0. destruct mm as [|m]; [lia|]. unfold rowf.
+  rewrite (sum_n_peel m (fun s => mul (a2 i s) (nth (k + s) x zero))).
+  rewrite (sum_n_peel m (fun s => mul (a2 k s) (nth (k + s) x zero))).
+  cbn [sum_n]. unfold elim_f at 2. replace (m <? S m - 1) with false by (symmetry; apply Nat.ltb_ge; lia).
+  rewrite (sum_n_ext m _ (fun u => sub (mul (a2 i (1 + u)) (nth (k + (1 + u)) x zero))
+                                       (mul (mult_f a2 k i) (mul (a2 k (1 + u)) (nth (k + (1 + u)) x zero))))).
+  2:{ intros u Hu. unfold elim_f. replace (u <? S m - 1) with true by (symmetry; apply Nat.ltb_lt; lia).
+      replace (u + 1) with (1 + u) by lia. replace (k + 1 + u) with (k + (1 + u)) by lia. ring. }
+  rewrite sum_n_lin. unfold mult_f. rewrite (neq_eqb_false _ _ Hk0). rewrite Nat.add_0_r.
+  field. exact Hk0.
+Qed.
+
+Lemma swp_invol k p i : swp k p (swp k p i) = i.
+Proof.
+  unfold swp.
+  destruct (Nat.eqb_spec i k) as [->|H1].
+  - destruct (Nat.eqb_spec p k) as [->|H2]; auto. now rewrite Nat.eqb_refl.
+  - destruct (Nat.eqb_spec i p) as [->|H2].
+    + now rewrite Nat.eqb_refl.
+    + destruct (Nat.eqb_spec i k); [congruence|]. destruct (Nat.eqb_spec i p); congruence.
+Qed.
+
+Lemma stage_back n mm m1 k p l' (au au' : matrix) (y y' x : list T) :
+  1 <= mm -> k < n -> l' = Nat.min (k + 1 + m1) n -> (p = k \/ (k < p /\ p < l')) ->
+  let a2 := fun i s => mat_at au mm (swp k p i) s in
+  a2 k 0 <> zero ->
+  (forall i s, s < mm -> mat_at au' mm i s = if (k <? i) && (i <? l') then elim_f a2 mm k i s else a2 i s) ->
+  (forall i, nth i y' zero =
+     if (k <? i) && (i <? l')
+     then sub (nth (swp k p i) y zero) (mul (mult_f a2 k i) (nth (swp k p k) y zero))
+     else nth (swp k p i) y zero) ->
+  (forall i, i < n -> rowval au' mm i (c_of m1 (k + 1) i) x = nth i y' zero) ->
+  forall i, i < n -> rowval au mm i (c_of m1 k i) x = nth i y zero.
+Proof.
+  intros Hmm Hkn Hl' Hp a2 Hk0 Hau' Hy' Hnew.
+  (* the system after the exchange: rows of the window, aligned at column k *)
+  assert (Hwin : forall i, k <= i < l' -> rowf (a2 i) mm k x = nth (swp k p i) y zero).
+  { assert (H1 : rowf (a2 k) mm k x = nth (swp k p k) y zero).
+    { specialize (Hnew k Hkn). rewrite rowval_rowf in Hnew.
+      rewrite (rowf_ext _ (a2 k)) in Hnew.
+      2:{ intros s Hs. rewrite Hau' by auto. now rewrite Nat.ltb_irrefl. }
+      rewrite Hy', Nat.ltb_irrefl in Hnew. cbn [andb] in Hnew.
+      unfold c_of in Hnew. replace (k <? k + 1) with true in Hnew by (symmetry; apply Nat.ltb_lt; lia).
+      exact Hnew. }
+    intros i Hi. destruct (Nat.eq_dec i k) as [->|Hik]; [exact H1|].
+    assert (Hin : (k <? i) && (i <? l') = true) by (apply andb_true_iff; split; apply Nat.ltb_lt; lia).
+    assert (Hi' : i < n) by lia.
+    specialize (Hnew i Hi'). rewrite rowval_rowf in Hnew.
+    rewrite (rowf_ext _ (elim_f a2 mm k i)) in Hnew.
+    2:{ intros s Hs. rewrite Hau' by auto. now rewrite Hin. }
+    rewrite Hy', Hin in Hnew.
+    unfold c_of in Hnew. replace (i <? k + 1) with false in Hnew by (symmetry; apply Nat.ltb_ge; lia).
+    replace (i <? k + 1 + m1) with true in Hnew by (symmetry; apply Nat.ltb_lt; lia).
+    rewrite rowf_elim in Hnew by auto. rewrite H1 in Hnew.
+    transitivity (add (sub (rowf (a2 i) mm k x) (mul (mult_f a2 k i) (nth (swp k p k) y zero)))
+                      (mul (mult_f a2 k i) (nth (swp k p k) y zero))); [ring|].
+    rewrite Hnew. ring. }
+  intros i Hi.
+  destruct (Nat.lt_ge_cases i k) as [Hlt|Hge]; [|destruct (Nat.lt_ge_cases i l') as [Hin|Hout]].
+  - (* finished rows *)
+    assert (Hsw : swp k p i = i).
+    { unfold swp. destruct (Nat.eqb_spec i k); [lia|]. destruct (Nat.eqb_spec i p); [lia|reflexivity]. }
+    specialize (Hnew i Hi). rewrite rowval_rowf in *.
+    rewrite (rowf_ext _ (mat_at au mm i)) in Hnew.
+    2:{ intros s Hs. rewrite Hau' by auto.
+        replace (k <? i) with false by (symmetry; apply Nat.ltb_ge; lia). cbn [andb]. unfold a2. now rewrite Hsw. }
+    rewrite Hy' in Hnew. replace (k <? i) with false in Hnew by (symmetry; apply Nat.ltb_ge; lia).
+    cbn [andb] in Hnew. rewrite Hsw in Hnew. unfold c_of in *.
+    replace (i <? k) with true by (symmetry; apply Nat.ltb_lt; lia).
+    replace (i <? k + 1) with true in Hnew by (symmetry; apply Nat.ltb_lt; lia). exact Hnew.
+  - (* rows of the window *)
+    pose (i' := swp k p i).
+    assert (Hi'w : k <= i' < l').
+    { unfold i', swp. destruct (Nat.eqb_spec i k); [lia|]. destruct (Nat.eqb_spec i p); lia. }
+    specialize (Hwin i' Hi'w). unfold i' in Hwin at 2. rewrite swp_invol in Hwin.
+    rewrite rowval_rowf. rewrite <- Hwin.
+    unfold c_of. replace (i <? k) with false by (symmetry; apply Nat.ltb_ge; lia).
+    destruct (Nat.ltb_spec i (k + m1)).
+    + apply rowf_ext. intros s Hs. unfold a2, i'. now rewrite swp_invol.
+    + replace (i - m1) with k by lia. apply rowf_ext. intros s Hs. unfold a2, i'. now rewrite swp_invol.
+  - (* rows not yet reached *)
+    assert (Hsw : swp k p i = i).
+    { unfold swp. destruct (Nat.eqb_spec i k); [lia|]. destruct (Nat.eqb_spec i p); [lia|reflexivity]. }
+    specialize (Hnew i Hi). rewrite rowval_rowf in *.
+    rewrite (rowf_ext _ (mat_at au mm i)) in Hnew.
+    2:{ intros s Hs. rewrite Hau' by auto.
+        replace (i <? l') with false by (symmetry; apply Nat.ltb_ge; lia). rewrite andb_false_r.
+        unfold a2. now rewrite Hsw. }
+    rewrite Hy' in Hnew. replace (i <? l') with false in Hnew by (symmetry; apply Nat.ltb_ge; lia).
+    rewrite andb_false_r in Hnew. rewrite Hsw in Hnew. unfold c_of in *.
+    replace (i <? k) with false by (symmetry; apply Nat.ltb_ge; lia).
+    replace (i <? k + m1) with false by (symmetry; apply Nat.ltb_ge; lia).
+    replace (i <? k + 1) with false in Hnew by (symmetry; apply Nat.ltb_ge; lia).
+    replace (i <? k + 1 + m1) with false in Hnew by (symmetry; apply Nat.ltb_ge; lia). exact Hnew.
+Qed.
+
 End LU.
